@@ -66,7 +66,7 @@ func judgePausePass(cc c08.ChainCase, before *kmodel.Store, pass *world.Pass, af
 			}
 			continue
 		}
-		if marked(pre) {
+		if marked(pre) && osw.Lifecycle(pre) == "Paused" {
 			released := false
 			for _, r := range pass.Reqs {
 				if r.Key == k && r.IsWrite() && r.Err == nil && r.Post != nil && !marked(r.Post) {
@@ -86,7 +86,8 @@ func pauseCases(quick bool) []c08.ChainCase {
 		lc     string
 		marked bool
 	}
-	states := []st{{"Active", false}, {"Paused", true}, {"Paused", false}, {"Archived", false}}
+	// ("Active", marked): somebody set a revision the parent had paused back to Active by hand, the mark stayed
+	states := []st{{"Active", false}, {"Paused", true}, {"Paused", false}, {"Archived", false}, {"Active", true}}
 	var out []c08.ChainCase
 	maxN := 3
 	if !quick {
@@ -147,7 +148,7 @@ func judgePauseCase(cc c08.ChainCase) ([]world.Finding, string, []string) {
 
 func runDecision(o checks.Opts) *report.Report {
 	rep := report.New("C09", "decision")
-	rep.Rule = "one real ObjectDeployment pass over every pre-populated chain of 2-3 (thorough: 2-4) revisions, each Active / Paused by the parent / Paused by somebody else / Archived in every position (so also an archived revision between active ones), the newest available or not and matching the template or not, with the deployment paused and not paused: paused => after a completed pass every non-archived revision is Paused and no revision is created, archived or deleted; not paused => exactly the revisions carrying the paused-by-parent mark are released and no other revision is set Active; distinct = (paused, lifecycle changes)"
+	rep.Rule = "one real ObjectDeployment pass over every pre-populated chain of 2-3 (thorough: 2-4) revisions, each Active / Paused by the parent / Paused by somebody else / Archived / set back to Active by hand with the parent's mark still on it, in every position (so also an archived revision between active ones), the newest available or not and matching the template or not, with the deployment paused and not paused: paused => after a completed pass every non-archived revision is Paused and no revision is created, archived or deleted; not paused => exactly the revisions carrying the paused-by-parent mark are released and no other revision is set Active; distinct = (paused, lifecycle changes)"
 	cases := pauseCases(o.Quick())
 	rep.Bounds["cases"] = len(cases)
 	for i, cc := range cases {
